@@ -658,6 +658,9 @@ class Sym:
                 return v
         if target is not None:
             return ("call", target.qual, args, kws)
+        if isinstance(c.func, ast.Name) and c.func.id in env and env[c.func.id][0] not in ("param", "name", "unbound"):
+            # call of a callable held in a local:  cls = registry[key]; cls(a, b)
+            return ("callv", env[c.func.id], args, kws)
         return ("call", self._ext_name(cn) if cn else unparse(c.func), args, kws)
 
     def _ext_name(self, d):
@@ -902,6 +905,8 @@ def show(x, depth=0):
         return "(" + (" %s " % tag).join(show(y) for y in x[1:]) + ")"
     if tag == "item":
         return "%s[%s]" % (show(x[1]), x[2] if not isinstance(x[2], tuple) else show(x[2]))
+    if tag == "callv":
+        return "(%s)(%s)" % (show(x[1]), ", ".join(show(a) for a in x[2]))
     if tag in ("call", "new"):
         return "%s(%s)" % (x[1], ", ".join([show(a) for a in x[2]] + ["%s=%s" % (k, show(v)) for k, v in x[3]]))
     return "%s(%s)" % (tag, ", ".join(show(y) for y in x[1:]))
